@@ -19,7 +19,7 @@ NUMS = ['0', '1', '-1', '7', '-7', '255', '-256', '2**30', '-2**30', '2**31', '2
         '10**18', 'True', 'False']
 FLTS = ['0.0', '-0.0', '1.5', '-2.5', '1e300', '1e-7', '123456.789', "float('inf')", "float('nan')", '3.0']
 MISC = ['None', "'s'", "b'b'", '(1, 2)', '[1, 2]', "{'k': 1}", 'IntSub(5)', 'FloatSub(1.5)', '1j', '{1, 2}']
-SMALL = ['-5', '-4', '-3', '-1', '0', '1', '2', '3', '4', '5', '2**31', '-2**31', '2**63', '-2**63 - 1', 'True', 'None', '1.0', "'1'"]
+SMALL = ['-5', '-4', '-3', '-1', '0', '1', '2', '3', '4', '5', '2**31', '-2**31', '2**63 - 1', '-2**63', 'True', 'None', '1.0', "'1'"]
 
 
 class B:
@@ -142,7 +142,7 @@ def build(tier='quick'):
     b.fn('idx/aug', idx, 'i', 'c = [1, 2, 3]\nc[i] += 10\nc[i] *= 2\nreturn c')
     b.fn('idx/unpack', idx, 'i', 'c = [1, 2, 3, 4][:i]\na, *r = c\nreturn [a, r]')
     b.fn('idx/unpack2', idx, 'i', 'a, b = (1, 2, 3)[:i]\nreturn a + b')
-    b.fn('idx/mul', idx, 'i', "return [[1, 2] * i, 'ab' * i, (1,) * i, b'x' * i]")
+    b.fn('idx/mul', b.inputs('mulidx', one(['-1', '0', '1', '3', 'True', 'None', '1.0'])), 'i', "return [[1, 2] * i, 'ab' * i, (1,) * i, b'x' * i]")
 
     # ---------------------------------------------------------------- comparisons
     for ex in ['x < y', 'x <= y', 'x == y', 'x != y', 'x > y', 'x >= y', 'x is y', 'x is not y', 'x < y < 3', 'x == y == 1', '0 <= x < y', 'x in (y, 1)',
